@@ -72,7 +72,7 @@ class H(dict):
             flags=[], solver="default", timeout=600, mem_gb=12, tiers=("quick", "thorough"),
             expect="pass", covers=None, isr=None, ignore=[], depth=None, finding=None,
             excludes=[], weight=1, recursion_is_violation=False, cflags=[], what="",
-            pre=None, no_cover=False, replay_cflags=[], cover_timeout=None, bounds={}, nobody_ok=[],
+            pre=None, no_cover=False, replay_cflags=[], drop_flags=[], cover_timeout=None, bounds={}, nobody_ok=[],
         )
         d.update(kw)
         super().__init__(d)
@@ -239,7 +239,7 @@ class Runner:
                     "--object-bits", "12", "--no-standard-checks"]
             cmd += [f for f in h.flags if f.startswith("--max-nondet") or f in ("--no-built-in-assertions",)]
         else:
-            cmd += CBMC_CHECK_FLAGS + ["--trace"] + h.flags + SOLVERS[h.solver]
+            cmd += [f for f in CBMC_CHECK_FLAGS if f not in h.drop_flags] + ["--trace"] + h.flags + SOLVERS[h.solver]
         return cmd
 
     # ---- one harness ---------------------------------------------------------------
@@ -388,6 +388,8 @@ class Runner:
             f.write("property: %s\ndescription: %s\nlocation: %s\n\n" %
                     (entry["property"], entry["description"], entry["loc"]))
             f.write("\n".join(trace_summary(entry.get("trace") or [])))
+        with open(os.path.join(outdir, "calls.txt"), "w") as f:
+            f.write("\n".join(l for l in trace_summary(entry.get("trace") or [], maxn=10**9) if l.startswith("CALL") or l.startswith("FAIL")))
         d = os.path.join(self.work, h.name)
         srcs = self.sources(h) + [os.path.join(d, g) for g in getattr(h, "generated", [])]
         srcs.append(os.path.join(VERIF, "lib/replay_rt.c"))
